@@ -161,3 +161,58 @@ func H_C20_register_race() {
 	}
 	verifrt.Assert(!started || returned, "ShutdownAndWait returned while a started worker was still running")
 }
+
+// H_C20_early: a worker of the highest order returns on its own before the shutdown; the remaining workers of
+// distinct lower orders are still stopped in descending order.
+//
+//verif:h prop=C20 preempt=1/2 cover=done runs=30000000 timeout=280/3000 steps=400000
+func H_C20_early() {
+	d := New()
+	ws := []*c20Worker{{name: "w0", order: 3, mode: 2}, {name: "w1", order: 2, mode: 0}, {name: "w2", order: 1, mode: 1}, {name: "w3", order: 0, mode: 0}}
+	nW := 3 + verifrt.Choose("four", 2)
+	ws = ws[:nW]
+	earlyDone := make(chan struct{})
+	verifrt.GhostPut("earlyDone", earlyDone)
+	for k, w := range ws {
+		f := w.run(ws)
+		if k == 0 {
+			inner := f
+			f = func(ctx context.Context) { inner(ctx); close(earlyDone) }
+		}
+		verifrt.Assert(d.BackgroundWorker(w.name, f, w.order) == nil, "BackgroundWorker refused a new worker before shutdown")
+	}
+	d.Start()
+	verifrt.MustFinish()
+	<-verifrt.GhostGet("earlyDone").(chan struct{}) // main blocks: the early worker runs, returns and cleans up
+	d.ShutdownAndWait()
+	for _, w := range ws {
+		verifrt.Assert(verifrt.GhostInt("returned:"+w.name) == 1, "ShutdownAndWait returned before a started worker had returned")
+	}
+	verifrt.Cover("done")
+}
+
+// H_C20_rerun: a name is registered again while the goroutine of its previous (finished) worker is still tearing
+// down. If the registration is accepted the new worker is shut down like every other worker.
+//
+//verif:h prop=C20 preempt=2/3 cover=accepted,refused runs=30000000 timeout=280/3000 steps=400000
+func H_C20_rerun() {
+	d := New()
+	verifrt.Assert(d.BackgroundWorker("a", func(context.Context) {}, 1) == nil, "BackgroundWorker refused a new worker before shutdown")
+	d.Start()
+	verifrt.MustFinish()
+	err := d.BackgroundWorker("a", func(ctx context.Context) {
+		verifrt.GhostPut("started:a2", 1)
+		<-ctx.Done()
+		verifrt.GhostPut("returned:a2", 1)
+	}, 1)
+	if err != nil {
+		verifrt.Cover("refused")
+		verifrt.Assert(ierrors.Is(err, ErrExistingBackgroundWorkerStillRunning), "re-registering a finished worker's name was refused with an unexpected error")
+	} else {
+		verifrt.Cover("accepted")
+	}
+	d.ShutdownAndWait()
+	if err == nil {
+		verifrt.Assert(verifrt.GhostInt("started:a2") == 1 && verifrt.GhostInt("returned:a2") == 1, "a worker that was accepted under a re-used name was not started, cancelled and awaited by the shutdown")
+	}
+}
